@@ -231,7 +231,8 @@ def raise_errors(*args):
 
 
 def _to_number(number):
-    if isinstance(number, (bool, np.bool_)) and number:
+    # Logicals inside ranges/arrays are not numbers.
+    if isinstance(number, (bool, np.bool_)):
         return np.nan
     try:
         return float(number)
